@@ -133,9 +133,14 @@ func (s *wordStats) note(o outcome) {
 		s.okKeys[uint32(o.inst.FormatType)<<24|uint32(o.inst.Opcode)<<8|uint32(o.inst.ByteSize)] = struct{}{}
 		return
 	}
-	m := o.msg
-	if i := strings.IndexAny(m, "0123456789"); i > 0 {
-		m = m[:i]
+	// class of the undecodable outcome: error class, or the diagnostic text /
+	// runtime error text without numbers
+	m := errClass(o.msg)
+	if o.kind != kErr || m == "other-error" {
+		m = o.msg
+		if i := strings.IndexAny(m, "0123456789["); i > 0 {
+			m = m[:i]
+		}
 	}
 	s.errKinds[kindNames[o.kind]+":"+m] = struct{}{}
 }
